@@ -1061,10 +1061,6 @@ func (s *ObjectStorage) buildPackfileIters(
 	return &lazyPackfilesIter{
 		hashes: packs,
 		open: func(h plumbing.Hash) (storer.EncodedObjectIter, error) {
-			pack, err := s.dir.OpenPackForReading(h)
-			if err != nil {
-				return nil, err
-			}
 			simhook.BeforeRLock(&s.muI)
 			s.muI.RLock()
 			idx := s.index[h]
@@ -1075,7 +1071,6 @@ func (s *ObjectStorage) buildPackfileIters(
 				// after the index was built. Pick it up rather than fail
 				// the whole iteration with "index is not set".
 				if err := s.Reindex(); err != nil {
-					_ = pack.Close()
 					return nil, err
 				}
 				simhook.BeforeRLock(&s.muI)
@@ -1084,14 +1079,24 @@ func (s *ObjectStorage) buildPackfileIters(
 				s.muI.RUnlock()
 				if idx == nil {
 					// gone again (repacked away in the meantime)
-					_ = pack.Close()
 					return storer.NewEncodedObjectSliceIter(nil), nil
 				}
 			}
-			return newPackfileIter(
-				s.dir.Fs(), pack, t, seen, idx,
-				s.objectCache, false, h.Size(),
-			)
+			// The objects handed out end up in the shared object cache and
+			// may be read by other goroutines, during and after this
+			// iteration. They must not borrow a file that the iterator
+			// closes when it is done: a Packfile built on the pack handle
+			// gives every object reader a cursor of its own.
+			p, err := s.packfile(idx, h)
+			if err != nil {
+				return nil, err
+			}
+			iter, err := p.GetByType(t)
+			if err != nil {
+				_ = p.Close()
+				return nil, err
+			}
+			return &packfileIter{pack: p, iter: iter, seen: seen}, nil
 		},
 	}, nil
 }
